@@ -695,7 +695,7 @@ func vC15NameCase(tr *vC15Trace, r *rand.Rand) {
 		}
 		parts := make([]string, len(initial))
 		for i, e := range initial {
-			parts[i] = fmt.Sprintf("(%s, %d)", vC15CoqName(e[0].(string)), e[1].(int))
+			parts[i] = fmt.Sprintf("(%s, %d%%N)", vC15CoqName(e[0].(string)), e[1].(int))
 		}
 		cmCoq = "(Some [" + strings.Join(parts, ";") + "])"
 	}
@@ -743,7 +743,7 @@ func vC15NameCase(tr *vC15Trace, r *rand.Rand) {
 	sort.Slice(added, func(i, j int) bool { return added[i].v < added[j].v })
 	ap := make([]string, len(added))
 	for i, e := range added {
-		ap[i] = fmt.Sprintf("(%s, %d)", vC15CoqName(e.k), e.v)
+		ap[i] = fmt.Sprintf("(%s, %d%%N)", vC15CoqName(e.k), e.v)
 	}
 	if !ok { // what a failed call leaves in the dictionary is not part of the contract
 		ap = nil
